@@ -265,3 +265,29 @@ Proof.
   split; [|vm_compute; repeat split].
   intros nd Hnd. cbn in Hnd. destruct Hnd as [<-|[<-|[<-|[]]]]; split; cbn; intros x Hx; try tauto; destruct Hx as [<-|[]]; reflexivity.
 Qed.
+
+(* ---- the caller's EDGE attributes ("decoy" values under the weight attribute's name are copied onto the connecting
+   edges) influence neither the weights on the node edges nor edges_to_ignore *)
+Theorem C11_expanded_weight_is_node_value : forall G flow len nd,
+  NoDup (map ne_nm G) -> len <> Some flow -> In nd G ->
+  ne_L (fst (ne_expand_core G flow len)) flow (ne_exp0 (ne_nm nd), ne_exp1 (ne_nm nd)) = ne_dget (ne_at nd) flow.
+Proof. exact expand_weights. Qed.
+Print Assumptions C11_expanded_weight_is_node_value.
+
+Theorem C11_expansion_independent_of_edge_attributes : forall G flow len len',
+  NoDup (map ne_nm G) -> len <> Some flow -> len' <> Some flow ->
+  snd (ne_expand_core G flow len) = snd (ne_expand_core (map ne_strip G) flow len') /\
+  (forall nd, In nd G ->
+     ne_L (fst (ne_expand_core G flow len)) flow (ne_node_key nd) = ne_L (fst (ne_expand_core (map ne_strip G) flow len')) flow (ne_node_key nd)).
+Proof. exact expand_independent_of_edge_attributes. Qed.
+Print Assumptions C11_expansion_independent_of_edge_attributes.
+
+(* non-vacuity: the original edge a -> b carries a decoy "flow" = 50; it lands on (a.1, b.0), which is ignored; the weights stay 5 / none *)
+Definition ex_G_decoy : ne_ingraph :=
+  [ {| ne_nm := "b"; ne_at := []; ne_preds := [("a", [("flow", 50%Z)])]; ne_succs := [] |};
+    {| ne_nm := "a"; ne_at := [("flow", 5%Z)]; ne_preds := []; ne_succs := [("b", [("flow", 50%Z)])] |} ].
+Example C11_nonvacuous_decoy :
+  let X := ne_expand_core ex_G_decoy "flow" None in
+  ne_L (fst X) "flow" ("a.1", "b.0") = Some 50%Z /\ ne_L (fst X) "flow" ("a.0", "a.1") = Some 5%Z /\ ne_L (fst X) "flow" ("b.0", "b.1") = None /\
+  snd X = [("b.0", "b.1"); ("a.1", "b.0")] /\ snd X = snd (ne_expand_core (map ne_strip ex_G_decoy) "flow" None).
+Proof. vm_compute. repeat split. Qed.
